@@ -6,6 +6,8 @@ Oracle: a reference model = the list of accepted additions; every admissible
 view must equal the sum of the additions that belong to it, after every step.
 """
 import numpy
+
+from ..core import guarded
 from hypothesis import strategies as st
 
 ID = "C19"
@@ -58,8 +60,103 @@ def _hist(draw, nmax):
     return {"shape": shape, "first_resolution": first, "ops": ops}
 
 
+@st.composite
+def _container(draw):
+    """a container of responses (one per waiting time) read through container-level flags, with further additions to
+    members and derived containers taken in between"""
+    nt2 = draw(st.integers(2, 3))
+    arr = st.lists(st.integers(-3, 3), min_size=8, max_size=8)
+    members = [{"R": draw(arr), "N": draw(arr)} for _ in range(nt2)]
+    op = st.one_of(
+        st.builds(lambda f: {"op": "flag", "flag": f}, st.sampled_from(["R", "N", "T"])),
+        st.builds(lambda k, f, a: {"op": "add", "member": k, "flag": f, "arr": a}, st.integers(0, nt2 - 1),
+                  st.sampled_from(["R", "N"]), arr),
+        st.builds(lambda f: {"op": "derive", "flag": f}, st.sampled_from(["R", "N", "T"])),
+        st.just({"op": "read"}))
+    return {"kind": "container", "members": members, "ops": draw(st.lists(op, min_size=3, max_size=10))}
+
+
 def strategy(tier):
-    return _hist(14 if tier == "quick" else 30)
+    return st.one_of(_hist(14 if tier == "quick" else 30), _hist(14 if tier == "quick" else 30), _container())
+
+
+def _check_container(case, ctx):
+    import quantarhei as qr
+    from quantarhei.spectroscopy.twod2 import TwoDResponse
+    from quantarhei.spectroscopy.twodcontainer import TwoDResponseContainer
+    flags = {"R": qr.signal_REPH, "N": qr.signal_NONR, "T": qr.signal_TOTL}
+
+    def cplx(v):
+        return (numpy.array(v[:4], dtype=float) + 1j * numpy.array(v[4:], dtype=float)).reshape(2, 2)
+    t2axis = qr.TimeAxis(0.0, len(case["members"]), 10.0)
+    model = []
+
+    def build():
+        cont = TwoDResponseContainer(t2axis=t2axis)
+        for k, m in enumerate(case["members"]):
+            resp = TwoDResponse()
+            resp.set_axis_1(qr.FrequencyAxis(0.0, 2, 1.0))
+            resp.set_axis_3(qr.FrequencyAxis(0.0, 2, 1.0))
+            resp.set_t2(float(t2axis.data[k]))
+            resp.set_resolution("signals")
+            a, b = cplx(m["R"]), cplx(m["N"])
+            resp._add_data(a.copy(), dtype=qr.signal_REPH)
+            resp._add_data(b.copy(), dtype=qr.signal_NONR)
+            model.append({"R": a.copy(), "N": b.copy()})
+            cont.set_spectrum(resp)
+        return cont
+    ok, cont = guarded(ctx, "container/build", build)
+    if not ok:
+        return
+    ctx.label("container", "members=%d" % len(model))
+    current = None
+    moved = False
+    nontrivial = False
+    for step, op in enumerate(case["ops"]):
+        def view(k, f):
+            return model[k]["R"] + model[k]["N"] if f == "T" else model[k][f]
+        if op["op"] == "flag":
+            ok, _ = guarded(ctx, "container/set_data_flag", lambda: cont.set_data_flag(flags[op["flag"]]))
+            if not ok:
+                return
+            if current == op["flag"] and moved:
+                nontrivial = True
+            current, moved = op["flag"], False
+        elif op["op"] == "add":
+            k = op["member"] % len(model)
+            a = cplx(op["arr"])
+            ok, _ = guarded(ctx, "container/add", lambda: cont.get_spectrum(float(t2axis.data[k]))._add_data(
+                a.copy(), dtype=flags[op["flag"]]))
+            if not ok:
+                return
+            model[k][op["flag"]] = model[k][op["flag"]] + a
+            moved = True            # (an addition moves the member's own flag)
+        elif op["op"] == "derive":
+            ok, der = guarded(ctx, "container/derive", lambda: cont.get_TwoDSpectrumContainer(stype=flags[op["flag"]]))
+            if not ok:
+                return
+            moved = True
+            for k in range(len(model)):
+                ok, got = guarded(ctx, "container/derive", lambda: numpy.array(der.get_spectrum(float(t2axis.data[k])).data))
+                if ok and not ctx.close("container/derived-view", got, view(k, op["flag"]), rtol=0, atol=1e-12,
+                                        where=op["flag"], step=step):
+                    return
+        elif current is not None:
+            # a read through the container is preceded by setting the container's flag, as the library's own users do
+            ok, _ = guarded(ctx, "container/set_data_flag", lambda: cont.set_data_flag(flags[current]))
+            if not ok:
+                return
+            if moved:
+                nontrivial = True
+            moved = False
+            for k in range(len(model)):
+                ok, got = guarded(ctx, "container/read", lambda: numpy.array(cont.get_spectrum(float(t2axis.data[k])).d__data))
+                if not ok:
+                    return
+                if not ctx.close("container/view", got, view(k, current), rtol=0, atol=1e-12, where=current, step=step,
+                                 member=k):
+                    return
+    ctx.mark_nontrivial(nontrivial)
 
 
 def _type_of(level, key):
@@ -150,6 +247,8 @@ def compare_views(ctx, tw, storage, adds, shape, clause, where, step):
 
 
 def check_case(case, ctx):
+    if case.get("kind") == "container":
+        return _check_container(case, ctx)
     import quantarhei as qr
     from quantarhei.spectroscopy.twod2 import TwoDResponse
     from quantarhei.spectroscopy import twod2
